@@ -93,7 +93,7 @@ func run(r *enumx.Run, replay *enumx.ReplayCase) {
 		return
 	}
 	algs, fromSource := buildAlgs()
-	r.Rule("complete product, no sampling: every algorithm name (the three Supported* lists + every Algorithm_* constant of consts.go + junk names) x every key (oct 1..72 bytes, RSA-2048, P-256/384/521, Ed25519, public and private) x plaintext length 0..64,65,100 x nonce length 0..32 x tag length 0..32 x associated data {nil, empty, 5 bytes} through Encrypt/EncryptSymmetric and Decrypt/DecryptSymmetric; aeskw and aescbcaead directly for every KEK / key size; every (asymmetric algorithm, key kind) pair x 4-5 message lengths; every single-byte change (each position x each xor value, drop last byte, append a byte) of ciphertext, tag, nonce, associated data, wrapped key, label, digest and signature for 3 lengths per algorithm. A case is counted non-trivial when at most one thing is wrong with its inputs (it then reaches the cryptographic code or the one size/kind check that must reject it) or when it is a mutation of a valid output; every case is distinct by construction (index tuple).")
+	r.Rule("complete product, no sampling: every algorithm name (the three Supported* lists + every Algorithm_* constant of consts.go + junk names) x every key (oct 1..72 bytes, RSA-2048, P-256/384/521, Ed25519, public and private) x plaintext length 0..64,65,100 x nonce length 0..32 x tag length 0..32 x associated data {nil, empty, 5 bytes} through Encrypt/EncryptSymmetric and Decrypt/DecryptSymmetric; aeskw and aescbcaead directly for every KEK / key size; every (asymmetric algorithm, key kind) pair x 4-5 message lengths; aeskw and A*KW also for key data of 42, 43, 44, 64, 128 and 10923 blocks (step counter beyond one and two bytes); every single-byte change (each position x each xor value, drop last byte, append a byte) of ciphertext, tag, nonce, associated data, wrapped key, label, digest and signature for 3 lengths per algorithm. A case is counted non-trivial when at most one thing is wrong with its inputs (it then reaches the cryptographic code or the one size/kind check that must reject it) or when it is a mutation of a valid output; every case is distinct by construction (index tuple).")
 	r.Assume("the reference (verif/ref/cryptoref) is correct: standard-library primitives called directly; RFC 3394 and RFC 7518 §5.2 written from the RFC text and anchored by the RFCs' vectors (go test ./ref/cryptoref)")
 	r.Assume("asymmetric keys are fixed (generated once, embedded); symmetric keys, nonces, plaintexts are SHA-256-derived from VERIF_SEED; randomised operations (RSAES, PSS, ECDSA) are judged relationally only")
 	r.Assume("a zero-length octet key cannot be expressed as jwk.Key (jwx refuses it) and is covered only through the aescbcaead constructors; aeskw takes a cipher.Block, so its key sizes are those of crypto/aes")
@@ -257,6 +257,31 @@ func run(r *enumx.Run, replay *enumx.ReplayCase) {
 				})
 			}
 		})
+	}
+
+	// ---- kw-long: key data long enough for the step counter to need more than
+	// one and more than two bytes, aeskw directly and through the four crypto.*
+	// entry points, both directions against the RFC 3394 reference
+	for _, ks := range []int{16, 24, 32} {
+		ks := ks
+		for _, pl := range kwLongLens {
+			pl := pl
+			add("kw-long", func(u *ctx) {
+				c := Case{Sec: "kw", KSize: ks, PT: pl}
+				u.count(true)
+				u.emit(c, u.e.evalKW(c))
+				alg := fmt.Sprintf("A%dKW", ks*8)
+				key := u.e.octBySize[ks].String()
+				for _, ai := range []int{0, 2} {
+					c = Case{Sec: "sym-enc", Alg: alg, Key: key, PT: pl, Nonce: 0, AAD: ai}
+					u.count(true)
+					u.emit(c, u.e.evalSymEnc(c))
+					c = Case{Sec: "sym-dec", Alg: alg, Key: key, PT: pl, Nonce: 0, Tag: 0, AAD: ai}
+					u.count(true)
+					u.emit(c, u.e.evalSymDec(c))
+				}
+			})
+		}
 	}
 
 	// ---- aescbcaead direct
@@ -490,7 +515,7 @@ func run(r *enumx.Run, replay *enumx.ReplayCase) {
 	}
 	perSec := map[string]int64{}
 	busySec := map[string]float64{}
-	for _, sec := range []string{"sym-enc", "sym-dec", "sym-mut", "kw", "aead", "asym-enc", "asym-dec", "asym-mut", "sig", "sig-mut"} {
+	for _, sec := range []string{"sym-enc", "sym-dec", "sym-mut", "kw", "kw-long", "aead", "asym-enc", "asym-dec", "asym-mut", "sig", "sig-mut"} {
 		if total[sec] == 0 {
 			continue
 		}
